@@ -2,6 +2,7 @@ import RosuModel.Model.SkillOps
 import RosuModel.Lemmas.AggregateField
 import Mathlib.Analysis.SpecialFunctions.Pow.Real
 import Mathlib.Analysis.SpecialFunctions.Exp
+import Mathlib.Analysis.SpecialFunctions.Trigonometric.Basic
 import Mathlib.Algebra.Order.Floor.Defs
 import Mathlib.Tactic.Linarith
 import Mathlib.Tactic.Positivity
@@ -41,6 +42,9 @@ noncomputable instance instFOpsReal : FOps ℝ where
   sqrt := Real.sqrt
   powf := Real.rpow
   exp := Real.exp
+  cos := Real.cos
+  isNormal a := decide (a ≠ 0)
+  ofInt n := (n : ℝ)
   signum a := if 0 ≤ a then 1 else -1
   storable a := decide (0 < a)
   isNonZero a := decide (a ≠ 0)
@@ -72,6 +76,8 @@ noncomputable def realCasts : Casts ℝ ℝ where
 @[simp] theorem r_abs (a : ℝ) : FOps.abs a = |a| := rfl
 @[simp] theorem r_powf (a b : ℝ) : FOps.powf a b = a ^ b := rfl
 @[simp] theorem r_exp (a : ℝ) : FOps.exp a = Real.exp a := rfl
+@[simp] theorem r_cos (a : ℝ) : FOps.cos a = Real.cos a := rfl
+@[simp] theorem r_ofInt (n : Int) : (FOps.ofInt n : ℝ) = (n : ℝ) := rfl
 @[simp] theorem r_sqrt (a : ℝ) : FOps.sqrt a = Real.sqrt a := rfl
 @[simp] theorem r_storable (a : ℝ) : (FOps.storable a = true) ↔ 0 < a := by simp [FOps.storable]
 @[simp] theorem r_toF (x : ℝ) : realCasts.toF x = x := rfl
